@@ -129,6 +129,22 @@ def _obs_array(ra, other_dt):
         return ra.astype(other_dt)
     o["astype"] = guarded(astype_other)
     o["to_numpy"] = guarded(lambda: ra.to_numpy_array())
+    o["to_numpy_shape"] = guarded(lambda: [int(x) for x in ra.to_numpy_array().shape])
+    def equals():
+        # equals: same rows (cells AND row lengths); a changed cell, or the same cells cut into other rows, is another array
+        if ra.dtype.kind == "f" and bool(np.isnan(np.asarray(ra.ravel())).any()):
+            return "nan-cells"          # (a NaN cell equals nothing, itself included: not judged)
+        same = RaggedArray(np.asarray(ra.ravel()).copy(), [int(x) for x in ra.lengths])
+        res = [bool(ra.equals(same)), bool(same.equals(ra))]
+        if ra.size:
+            other = RaggedArray(np.asarray(ra.ravel()).copy(), [int(x) for x in ra.lengths])
+            flat = other.ravel(); flat[-1] = np.zeros(1, dtype=flat.dtype)[0] if flat[-1] != 0 else np.ones(1, dtype=flat.dtype)[0]
+            res.append(bool(ra.equals(other)))
+        lens = [int(x) for x in ra.lengths]
+        if len(lens) >= 2 and lens[0] != lens[-1]:
+            res.append(bool(ra.equals(RaggedArray(np.asarray(ra.ravel()).copy(), lens[::-1]))))
+        return res
+    o["equals"] = guarded(equals)
     def sl():
         fn = os.path.join(_scratch, "x")
         ra.save(fn)
@@ -268,7 +284,10 @@ def run_impl(p):
                 shape = RaggedShape(lens)
             else:
                 shape = lens
-            ra = RaggedArray(vals[:p["ndata"]].copy(), shape)
+            data = vals[:p["ndata"]].copy()
+            if p["vseed"] % 4 == 3 and p["dtype"] in ("int64", "float64", "bool") and p["ndata"] > 0:
+                data = data.tolist()          # the flat buffer as a plain Python list (its element type is then numpy's default for it)
+            ra = RaggedArray(data, shape)
             return _obs_array(ra, _other_dtype(p["dtype"]))
         return guarded(f)
     raise ValueError(p)
@@ -298,11 +317,13 @@ def _expected_array(rows, dt, other_dt):
             o["astype"] = {"k": "ra", "dt": str(np.dtype(other_dt)),
                            "v": [engine._nest(np.array(r, dtype=dt).astype(other_dt).tolist()) for r in rows]}
     if len(rows) == 0:
-        o["to_numpy"] = canon(np.empty((0, 0), dtype=dt))
+        o["to_numpy"] = canon(np.empty((0, 0), dtype=dt)); o["to_numpy_shape"] = canon([0, 0])
     elif all(l == lens[0] for l in lens):
-        o["to_numpy"] = canon(flat.reshape(len(rows), lens[0]))
+        o["to_numpy"] = canon(flat.reshape(len(rows), lens[0])); o["to_numpy_shape"] = canon([len(rows), lens[0]])
     else:
-        o["to_numpy"] = refuse()
+        o["to_numpy"] = refuse(); o["to_numpy_shape"] = refuse()
+    eq = [True, True] + ([False] if sum(lens) else []) + ([False] if len(lens) >= 2 and lens[0] != lens[-1] else [])
+    o["equals"] = canon("nan-cells" if dt.kind == "f" and bool(np.isnan(flat).any()) else eq)
     o["save_load"] = {"k": "tup", "v": [ra_c, canon(True)]}
     return o
 
